@@ -141,22 +141,23 @@ def expected_side(name, typ, value, pagesize):
     return None
 
 
-def build_cases(items, aliases, defaults, docs):
-    """-> list of dict(route,name,type,value,readname,cls)"""
+def build_cases(items, aliases, defaults, docs, quick=False):
+    """-> list of dict(route,name,type,value,readname,cls). quick: every item, alias and route, shorter value lists."""
     C = []
+    cut = (lambda l, n: l[:n]) if quick else (lambda l, n: l)
     names = {n: [n] + [a for a, r in aliases.items() if r == n] for n in items}
     for n, it in sorted(items.items()):
         t = it["type"]
         d = defaults[n]
         if t == "int":
             dv = d
-            valid, invalid, opn = INT_VALID + [dv], INT_INVALID, INT_OPEN
+            valid, invalid, opn = cut(INT_VALID, 3) + [dv], cut(INT_INVALID, 4), cut(INT_OPEN, 1)
         elif t == "double":
             dv = repr(float.fromhex(d))
-            valid, invalid, opn = DBL_VALID + [dv], DBL_INVALID, DBL_OPEN
+            valid, invalid, opn = cut(DBL_VALID, 4) + [dv], cut(DBL_INVALID, 4), cut(DBL_OPEN, 1)
         elif t == "boolean":
             dv = d
-            valid, invalid, opn = BOOL_TRUE + BOOL_FALSE, BOOL_INVALID, []
+            valid, invalid, opn = cut(BOOL_TRUE, 2) + cut(BOOL_FALSE, 2) + (["tRuE"] if quick else []), cut(BOOL_INVALID, 3), []
         else:
             dv = d[1:-1]
             valid, invalid, opn = [dv] + [v for v in docs.get(n, []) if v != dv], [], [STR_ARBITRARY]
@@ -175,7 +176,7 @@ def build_cases(items, aliases, defaults, docs):
                     routes = ["string"]
                     if v and not (set(v) & SEP) and ":" not in nm:
                         routes.append("parse")
-                    if cls == "valid" and (t == "string" or v == dv or vals.index(v) < 3):
+                    if cls == "valid" and (t == "string" or v == dv or vals.index(v) < (1 if quick else 3)):
                         routes += ["typed", "capi"]        # the typed setters take a value, not a text: a few suffice
                     elif t == "boolean":
                         routes.append("capi")              # sg_cfg_set_boolean takes the word and parses it itself
@@ -260,7 +261,7 @@ def run(ctx):
         snames = [n for n in sorted(items) if items[n]["type"] == "string"]
         docs = dict(zip(snames, pool.map(lambda n: documented_values(binp, n, world), snames)))
         docs = {n: v for n, v in docs.items() if v}
-        cases = build_cases(items, aliases, defaults, docs)
+        cases = build_cases(items, aliases, defaults, docs, ctx.quick)
         if world != "plain":       # second world: only the items that refused everything in the first one
             cases = [c for c in cases if c["readname"] in cov["worlds"]["plain"]["locked_items"]]
         lines = run_cases(binp, [(c["route"], c["name"], c["type"], c["value"], c["readname"]) for c in cases], world, pool, NSH)
